@@ -442,7 +442,7 @@ def wrap(x, signed, n_word):
 
 def get_sizes_from_dtype(dtype):
     if isinstance(dtype, str):
-        head, props = dtype.split('-')
+        head, props = dtype.split('-', 1)
         if head == 'fxp':
             # sign
             if props[0] == 's':
@@ -452,9 +452,9 @@ def get_sizes_from_dtype(dtype):
             else:
                 raise ValueError('dtype sign specifier should be `s` or `u`')
 
-            # sizes
-            if '-' in props:
-                props, _ = props.split('-')
+            # sizes (a negative n_frac contains a '-' too: only the complex suffix is stripped)
+            if props.endswith('-complex'):
+                props = props[:-len('-complex')]
 
             n_word, n_frac = props[1:].split('/')
             n_word = int(n_word)
